@@ -216,7 +216,7 @@ def parts(tier):
     ps = [hyp_part("general", make_general, int(n * 0.4)), hyp_part("edges", make_edges, int(n * 0.3)),
           hyp_part("zeros", make_zeros, int(n * 0.2)), hyp_part("names", make_names, int(n * 0.1))]
     import os
-    fz = int(os.environ.get("VERIF_FUZZ_RUNS", "0" if tier == "quick" else "160000"))
+    fz = int(os.environ.get("VERIF_FUZZ_RUNS", "0" if tier == "quick" else "64000"))
     if fz:
         ps.append(fuzz_part("fuzz-general", ID, "make_general", fz // 2))
         ps.append(fuzz_part("fuzz-edges", ID, "make_edges", fz // 2))
